@@ -860,20 +860,52 @@ def apply_shape(cfg, shape):
     return cfg
 
 
-def wholerun_config(rng, with_fix=False, shape=None):
+C05_WIDE_TAGS = ["coverage", "followup", "crews", "workday", "weather", "months", "years", "sims"]
+
+
+def _wide_leaves(cfg):
+    return {(a["path"][1], a["path"][2]) for a in cfg.get("wide_applied", []) if a["path"][0] == "m"}
+
+
+def _wide_follow_up_coverage(cfg, wide):
+    """the shared catalogue varies the coverage of the routine and stationary methods only; for C05 the
+    follow-up methods get spatial / temporal 0 and fractional values as well (own derived generator, recorded
+    in cfg["wide_applied"] like every other wide leaf)"""
+    if not (wide is True or "coverage" in wide):
+        return
+    xr = random.Random(cfg["weather_seed"] * 7919 + 5)
+    for fu in ("OGI_FU", "OGI_FU2"):
+        if fu in cfg["methods"] and xr.random() < 0.7:
+            par = xr.choice(["spatial", "temporal"])
+            v = xr.choice([0.0, 0.25, 0.5])
+            cfg["methods"][fu][par] = v
+            cfg.setdefault("wide_applied", []).append({"tag": "coverage", "path": ["m", fu, par], "value": v})
+
+
+def wholerun_config(rng, with_fix=False, shape=None, wide=None):
     """baseline + a normal program + the same program with every method's spatial coverage 0 + the
     same program with every method's MDL 1e9; with_fix: also a stationary screening method + its
     follow-up, normal and with spatial coverage 0"""
     import copy
     from harness import wholerun as W
 
-    cfg = W.make_config(rng, n_sims=1, ndays=rng.choice([120, 200, 400]))
+    nd = rng.choice([120, 200, 400])
+    if wide:
+        # "wide": 1-3 leaves the base generator never varies / boundary values, applied by the shared
+        # generator after its unchanged base draws and recorded in cfg["wide_applied"]; the derived programs
+        # below copy every leaf of the base methods, so what is materialised is what cfg["methods"] says
+        cfg = W.make_config(rng, ndays=nd, wide=wide)
+        _wide_follow_up_coverage(cfg, wide)
+    else:
+        cfg = W.make_config(rng, n_sims=1, ndays=nd)
     base = cfg["methods"]
-    # more variety than the generator's defaults for what C05 is about
-    base["OGI"]["spatial"] = rng.choice([1.0, 0.5, 0.75])
-    base["OGI"]["temporal"] = rng.choice([1.0, 0.5])
-    base["AIR"]["spatial"] = rng.choice([1.0, 0.5])
-    base["OGI_FU"]["spatial"] = rng.choice([1.0, 0.75])
+    wl = _wide_leaves(cfg)
+    # more variety than the generator's defaults for what C05 is about (a wide leaf is never overwritten)
+    for (m, par, vals) in (("OGI", "spatial", [1.0, 0.5, 0.75]), ("OGI", "temporal", [1.0, 0.5]),
+                           ("AIR", "spatial", [1.0, 0.5]), ("OGI_FU", "spatial", [1.0, 0.75])):
+        v = rng.choice(vals)
+        if (m, par) not in wl:
+            base[m][par] = v
     methods = {}
     progs = [{"name": "P_none", "methods": []}]
     for tag, patch in (("N", {}), ("Z", {"spatial": 0.0}), ("B", {"mdl": 1e9})):
@@ -1151,6 +1183,7 @@ def wholerun_one(args):
 
     seed, with_fix = args[0], args[1]
     shape = args[2] if len(args) > 2 else None
+    wide = args[3] if len(args) > 3 else None
     pool = bool(shape and shape.get("pool"))
     prior_root = None
     if with_fix == "prior":
@@ -1160,7 +1193,7 @@ def wholerun_one(args):
         files, _, _ = W.materialize(prior, prior_root)
         cfg["c05_prior_files"] = files
     else:
-        cfg = wholerun_config(random.Random(seed), with_fix, shape)
+        cfg = wholerun_config(random.Random(seed), with_fix, shape, wide)
     try:
         res = W.run_config(cfg, debug=not pool, processes=2 if pool else 1, trace=True)
     except BaseException:
@@ -1168,7 +1201,8 @@ def wholerun_one(args):
             shutil.rmtree(prior_root, ignore_errors=True)
         raise
     try:
-        out = {"seed": seed, "with_fix": with_fix, "shape": shape, "rc": res.rc,
+        out = {"seed": seed, "with_fix": with_fix, "shape": shape, "wide": wide,
+               "wide_applied": cfg.get("wide_applied", []), "n_sims": cfg.get("n_sims", 1), "rc": res.rc,
                "log": res.log[-1500:] if res.rc else "", "programs": {}, "small_thr": None}
         if with_fix and with_fix != "prior":
             out["small_thr"] = cfg["methods"]["ZF_FIX"]["follow_up"]["rolling"]["small_window_threshold"]
@@ -1355,13 +1389,21 @@ def wholerun_oracle(ctx):
         if i == 5:
             shape["pool"] = True                     # worker pool instead of the sequential debug mode
             shape["n_sims"] = 2
-        jobs.append((ctx.rng.randrange(1 << 30), kind, shape or None))
+        jobs.append((ctx.rng.randrange(1 << 30), kind, shape or None, None))
+    # "wide" configurations (leaves and boundary values the base generator never produces): the tags that can
+    # matter for C05, with a stationary method in the programs so that its coverage / windows are varied too
+    if ctx.quick:
+        wides = [["coverage", "followup"], ["crews", "workday", "weather", "months", "years", "sims"], True]
+    else:
+        wides = [[t] for t in C05_WIDE_TAGS] + [["coverage", "followup"], True, True]
+    for i, wd in enumerate(wides):
+        jobs.append((ctx.rng.randrange(1 << 30), True if (wd is True or "sims" not in wd) else False, None, wd))
     kinds = sorted(HISTORY_KINDS)
     n_hist = ctx.pick(1, 5)
     # quick: the covered-then-blind history; thorough: that one plus four others chosen by the seed
     hjobs = [(ctx.rng.randrange(1 << 30), "spatial-1-to-0" if i == 0 else kinds[(i + ctx.seed) % len(kinds)])
              for i in range(n_hist)]
-    with ThreadPoolExecutor(max_workers=min(n + n_hist, max(1, (os.cpu_count() or 2) // 2), 8)) as ex:
+    with ThreadPoolExecutor(max_workers=min(len(jobs) + n_hist, max(1, (os.cpu_count() or 2) // 2), 8)) as ex:
         hfut = [ex.submit(wholerun_history_one, j) for j in hjobs]
         outs = list(ex.map(wholerun_one, jobs))
         houts = []
@@ -1390,8 +1432,17 @@ def wholerun_oracle(ctx):
             ctx.violate(sig, what, dict(inp, finding=detail))
     for out in outs:
         ctx.count("wholerun:configs")
-        inp = {"stage": "wholerun", "seed": out["seed"], "with_fix": out["with_fix"], "shape": out.get("shape")}
+        inp = {"stage": "wholerun", "seed": out["seed"], "with_fix": out["with_fix"], "shape": out.get("shape"),
+               "wide": out.get("wide"), "wide_applied": out.get("wide_applied")}
         ctx.count("wholerun:shape:%s" % json.dumps(out.get("shape"), sort_keys=True))
+        if out.get("wide"):
+            ctx.count("wide:runs")
+            ctx.count("wide:runs:tags=%s" % ("all" if out["wide"] is True else "+".join(out["wide"])))
+            for a in out.get("wide_applied", []):
+                ctx.count("wide:applied:%s:%s=%s" % (a["tag"], ".".join(map(str, a["path"][1:])), json.dumps(a["value"])))
+            for prog, r in out["programs"].items():
+                if r["stats"] and r["stats"]["surveys"] == 0:
+                    ctx.count("wide:program-without-a-completed-survey (per-survey clauses have nothing to judge)")
         if out["rc"] != 0 and "KeyError" in out["log"] and "_surveys_this_year" in out["log"] \
                 and planner_drops_last_year((out.get("shape") or {}).get("period")):
             ctx.count("wholerun:stopped-by-recorded-C06-finding-F12-keyerror (not evaluated for C05)")
@@ -1548,7 +1599,7 @@ def replay(ctx, data):
             print("   ", sig, str(detail)[:300])
             ctx.violate(sig, what, dict(inp, finding=detail))
     elif stage == "wholerun":
-        out = wholerun_one((inp["seed"], inp.get("with_fix", False), inp.get("shape")))
+        out = wholerun_one((inp["seed"], inp.get("with_fix", False), inp.get("shape"), inp.get("wide")))
         for prog, r in out["programs"].items():
             print(prog, "rows", r["rows"], "diffs", r["n_diffs"], "tags", r["tag_events"], "fuq", r["fuq_events"],
                   "non-zero reports", r["nonzero_reports"], "survey-oracle findings", len(r["findings"]))
